@@ -125,6 +125,19 @@ def result_of(obj, case):
     return line
 
 
+def ext_order_probe():
+    """True when extra + custom properties next to an unregistered toplevel-property-extension come out as one sorted run."""
+    u = "8d1c5bdf-5a0e-4b8e-9a3c-1f2e3d4c5b6a"
+    names = ["zeta_p", "alpha_p", "mid_p", "beta_p", "omega_p", "gamma_p"]
+    try:
+        o = stix2.v21.Identity(name="n", extensions={"extension-definition--" + u: {"extension_type": "toplevel-property-extension"}},
+                               custom_properties={"x_c": 1}, **{n: 1 for n in names})
+        keys = [k for k in json.loads(o.serialize()) if k in names or k == "x_c"]
+        return keys == sorted(names + ["x_c"])
+    except Exception:  # noqa: BLE001
+        return False
+
+
 def probes():
     """Witnesses of the C02 defect variants, run on public Property classes: True = accepted."""
     P = stix2.properties
@@ -173,6 +186,10 @@ def probes():
             "type": "marking-definition", "spec_version": "2.1", "id": "marking-definition--" + u,
             "created": "2017-06-24T13:09:27.000Z", "definition_type": "statement",
             "definition": {"statement": "s", "custom_properties": {"x_via_loophole": 1}}})),
+        # C04: a custom property given as None sets has_custom although nothing is stored
+        "null_custom_sets_flag": bool(stix2.parse(dict(ident, x_foo=None), allow_custom=True).has_custom),
+        # C01: extra properties next to an unregistered toplevel-property-extension keep set order
+        "ext_order_sorted": ext_order_probe(),
         "d2s_ext_nondict": exc_of(lambda: stix2.parse({"type": "x-unknown-type", "id": "x-unknown-type--" + u, "extensions": "abc"})),
     }
 
